@@ -386,7 +386,7 @@ NUM_CONFIGS = {
     "quick": [("pairs", "LuaNumPairsQ.cfg"), ("strops", "LuaNumStrQ.cfg"), ("numerals", "LuaNumNumeralsQ.cfg"), ("random", "LuaNumRandom.cfg")],
     "thorough": [("pairs", "LuaNumPairsT.cfg"), ("strops", "LuaNumStrQ.cfg"), ("numerals", "LuaNumNumeralsT.cfg"), ("random", "LuaNumRandom.cfg")],
 }
-RANDOM_PAIRS = {"quick": 150, "thorough": 2000}
+RANDOM_PAIRS = {"quick": 100, "thorough": 2000}
 
 
 def run(prop, tier, family="num"):
